@@ -1150,6 +1150,74 @@ func bigTravProp(c BigTravCase, r *pbt.R) error {
 	return nil
 }
 
+// ---------------------------------------------------------------------------
+// ptrvalues: values are pointers - the most recently upserted POINTER is what Get and Traverse hand out
+
+// PtrValCase: Ops are (kind, key): 0 Upsert(k, a NEW pointer to the integer k%3), 1 Delete(k), 2 Get(k).
+type PtrValCase struct {
+	N   int      `json:"n"`
+	Ops [][2]int `json:"ops"`
+}
+
+func ptrValProp(c PtrValCase, r *pbt.R) error {
+	n := c.N
+	if n < 1 || n > 512 || len(c.Ops) > 5000 {
+		return nil
+	}
+	t := bstree.New[int, *int](func(a, b int) bool { return a < b })
+	model := map[int]*int{}
+	again, absentDeleted := false, false
+	carve := r.KF(kfSize)
+	for i, op := range c.Ops {
+		k := ((op[1] % n) + n) % n
+		ctx := func() string {
+			return fmt.Sprintf("bstree.New[int, *int] over keys 0..%d, after %d of ops %v (0 Upsert a new pointer to k%%3, 1 Delete, 2 Get)", n-1, i+1, c.Ops)
+		}
+		switch ((op[0] % 3) + 3) % 3 {
+		case 0:
+			v := new(int)
+			*v = k % 3
+			if _, ok := model[k]; ok {
+				again = true
+			}
+			t.Upsert(k, v)
+			model[k] = v
+		case 1:
+			err := t.Delete(k)
+			if _, present := model[k]; present != (err == nil) {
+				return fmt.Errorf("%s: Delete(%d) returned %v, the key is present: %v", ctx(), k, err, present)
+			} else if !present {
+				absentDeleted = true
+			}
+			delete(model, k)
+		default:
+			got, err := t.Get(k)
+			want, present := model[k]
+			if present != (err == nil) || (present && got.Val != want) {
+				return fmt.Errorf("%s: Get(%d) = (%p, %v), want the pointer upserted last (%p, present %v); both point to %d", ctx(), k, got.Val, err, want, present, k%3)
+			}
+		}
+		if absentDeleted && carve {
+			r.Excluded(kfSize)
+		} else if t.Size() != len(model) {
+			return fmt.Errorf("%s: Size() = %d, want %d", ctx(), t.Size(), len(model))
+		}
+	}
+	cnt := 0
+	t.Traverse(func(it bstree.Item[int, *int]) {
+		if want, ok := model[it.Key]; ok && want == it.Val {
+			cnt++
+		} else {
+			cnt += 1000000
+		}
+	})
+	if cnt != len(model) {
+		return fmt.Errorf("bstree.New[int, *int] after ops %v: Traverse does not visit exactly the %d present keys with the pointers upserted last", c.Ops, len(model))
+	}
+	r.NonTrivialIf(again, "a present key was upserted again with another pointer to an equal integer")
+	return nil
+}
+
 func TestProp(t *testing.T) {
 	// A Traverse hands every item from an internal goroutine to the caller; with
 	// 16 shard processes on the machine a small GOMAXPROCS avoids the cost of
@@ -1182,6 +1250,21 @@ func TestProp(t *testing.T) {
 				"(Whether an odd key is seen is up to the interleaving.) Non-trivial = every case.",
 			Gen: travGen, Prop: travProp, OutOfEnum: func(TravCase, bool) bool { return true },
 			RapidQuick: 8, RapidThorough: 100,
+		},
+		&pbt.Check[PtrValCase]{
+			Name: "ptrvalues",
+			Rule: "bstree.New[int, *int]: every Upsert stores a NEW pointer to the integer k%3, so a present key is regularly upserted again with a different pointer to an equal integer; Get and Traverse must hand out the pointer upserted last (identity), Delete and Size as in the model (Size subject to the open finding). Random: up to 100 (400) operations over 2..30 keys. Non-trivial = a re-Upsert happened.",
+			Gen: func(s pbt.Src, thorough bool) PtrValCase {
+				max := 100
+				if thorough {
+					max = 400
+				}
+				c := PtrValCase{N: pbt.Pick(s, 2, 5, 12, 30)}
+				c.Ops = pbt.Seq(s, 1, max, func(s pbt.Src) [2]int { return [2]int{pbt.Pick(s, 0, 0, 0, 1, 2, 2), s.Intn(c.N)} })
+				return c
+			},
+			Prop: ptrValProp, OutOfEnum: func(PtrValCase, bool) bool { return true },
+			RapidQuick: 600, RapidThorough: 8000,
 		},
 		&pbt.Check[BigTravCase]{
 			Name: "bigtraverse",
